@@ -56,8 +56,11 @@ THEOREMS = [P + n for n in (
     "find_quiet_list_spec",
     "find_quiet_sheet_spec",
     "find_quiet_spec_partial",
+    "find_quiet_spec",
     "find_quiet_spec_counterexample",
     "find_reporting_eq_quiet_partial",
+    "find_reporting_eq_quiet",
+    "find_reporting_spec",
     "find_reporting_eq_quiet_stable",
     "find_reporting_spec_partial",
     "find_reporting_eq_quiet_counterexample_union",
@@ -66,10 +69,12 @@ THEOREMS = [P + n for n in (
     "key_pattern_counterexample",
     "wrapperless_counterexample",
     "applyImports_scope",
+    "applyImports_call_template_scope",
     "builtin_rule_when_none",
 )]
 
-WORK = os.path.join(common.CACHE, "work", "c10")
+# one scratch directory per process, so that two runs of this check (e.g. quick and thorough) can overlap
+WORK = os.path.join(common.CACHE, "work", "c10", "p%d" % os.getpid())
 
 
 def _limits():
@@ -79,7 +84,7 @@ def _limits():
 
 
 class Proc:
-    def __init__(self, cmd, env=None, timeout=60, limit=False):
+    def __init__(self, cmd, env=None, timeout=20, limit=False, sentinel=None):
         e = dict(os.environ)
         if env:
             e.update(env)
@@ -87,22 +92,34 @@ class Proc:
                                   env=e, text=True, bufsize=1, preexec_fn=_limits if limit else None)
         self.cmd = cmd
         self.timeout = timeout
+        self.sentinel = sentinel
 
     def ask(self, line):
         import select
+        import time
+        deadline = time.time() + self.timeout
         try:
             self.p.stdin.write(line + "\n")
             self.p.stdin.flush()
-            ready, _, _ = select.select([self.p.stdout], [], [], self.timeout)
-            if not ready:
-                self.p.kill()
-                return None
-            r = self.p.stdout.readline()
+            while True:
+                left = deadline - time.time()
+                if left <= 0:
+                    self.p.kill()
+                    return None
+                ready, _, _ = select.select([self.p.stdout], [], [], left)
+                if not ready:
+                    self.p.kill()
+                    return None
+                r = self.p.stdout.readline()
+                if r == "":
+                    return None
+                if self.sentinel is None:
+                    return r.rstrip("\n")
+                if r.startswith(self.sentinel):
+                    return r[len(self.sentinel):].rstrip("\n")
+                # anything else was printed by the library itself: not a reply
         except (BrokenPipeError, OSError):
             return None
-        if r == "":
-            return None
-        return r.rstrip("\n")
 
     def close(self):
         try:
@@ -116,7 +133,7 @@ class Env:
     def __init__(self, harness, model):
         self.hcmd = [harness]
         self.mcmd = [model]
-        self.h = Proc(self.hcmd, limit=True)
+        self.h = Proc(self.hcmd, limit=True, sentinel="@@ ")
         self.m = Proc(self.mcmd)
         self.runs = 0
 
@@ -124,7 +141,7 @@ class Env:
         r = self.h.ask(line)
         if r is None:   # crashed: restart so that later cases still run; the caller reports the crash
             self.h.close()
-            self.h = Proc(self.hcmd, limit=True)
+            self.h = Proc(self.hcmd, limit=True, sentinel="@@ ")
         return r
 
     def model(self, line):
@@ -331,6 +348,8 @@ def attribute(env, case, res, key, path, q):
         if any(t["prio"] is None and any(G.ALTS[a][3] == 2 for a in t["alts"]) for _, t, _ in G.all_templates(case["main"])):
             experiments.append(("boolean-predicate-default-priority.reporting", G.explicit_defaults, False))
 
+    if any(t.get("call") for _, t, _ in G.all_templates(case["main"])):
+        experiments.append(("call-template-current-rule", G.inline_calls, False))
     if res["nodes"][key[0]]["kind"] == "rt" and any(
             len(t["alts"]) > 1 and any(G.ALTS[a][1] == "node" for a in t["alts"]) for _, t, _ in G.all_templates(case["main"])):
         # XPath::stepPattern accepts the root for a final node() step; only a union can bring such an alternative to the
@@ -451,7 +470,11 @@ def shrink(env, case, pred, budget=120):
 def describe(case):
     parts = []
     for path, t, rb in G.all_templates(case["main"]):
-        parts.append("T%d@%s[%s%s%s%s]" % (t["id"], ".".join(map(str, path)), G.pattern_text(t),
+        if t.get("named"):
+            parts.append("N%d@%s[name=n%d%s]" % (t["id"], ".".join(map(str, path)), t["id"], " apply-imports" if t["ai"] else ""))
+            continue
+        parts.append("T%d@%s[%s%s%s%s%s]" % (t["id"], ".".join(map(str, path)), G.pattern_text(t),
+                                          " call=n%d" % t["call"] if t.get("call") else "",
                                           " mode=m%d" % t["mode"] if t["mode"] else "",
                                           " prio=%s" % G.fmt_prio(t["prio"]) if t["prio"] is not None else "",
                                           " apply-imports" if t["ai"] else ""))
@@ -499,6 +522,95 @@ def check_targets(env, ctx, r):
     return bad
 
 
+PROBE_XSL = """<xsl:stylesheet version="1.0" xmlns:xsl="http://www.w3.org/1999/XSL/Transform">
+<xsl:template match="/"><o><xsl:for-each select="//*"><n name="{name()}"><xsl:apply-templates select="." mode="m"/></n></xsl:for-each></o></xsl:template>
+<xsl:template match="a" mode="m" priority="PRIO">T1</xsl:template>
+<xsl:template match="*" mode="m">T2</xsl:template>
+</xsl:stylesheet>
+"""
+MODE_MAIN = """<xsl:stylesheet version="1.0" xmlns:xsl="http://www.w3.org/1999/XSL/Transform" xmlns:p="u1" exclude-result-prefixes="p">
+<xsl:import href="mi.xsl"/>
+<xsl:include href="mn.xsl"/>
+<xsl:template match="/"><o><xsl:for-each select="//*"><n name="{name()}"><xsl:apply-templates select="." mode="p:m"/>|<xsl:apply-templates select="." mode="m"/></n></xsl:for-each></o></xsl:template>
+<xsl:template match="r" mode="p:m">T1</xsl:template>
+</xsl:stylesheet>
+"""
+MODE_INC = """<xsl:stylesheet version="1.0" xmlns:xsl="http://www.w3.org/1999/XSL/Transform" xmlns:q="u1" xmlns:p="u2">
+<xsl:template match="a" mode="q:m">T2</xsl:template>
+<xsl:template match="a" mode="p:m">T3</xsl:template>
+</xsl:stylesheet>
+"""
+MODE_IMP = """<xsl:stylesheet version="1.0" xmlns:xsl="http://www.w3.org/1999/XSL/Transform" xmlns:z="u1" xmlns:p="u3">
+<xsl:template match="*" mode="z:m">T4</xsl:template>
+<xsl:template match="*" mode="p:m">T5</xsl:template>
+<xsl:template match="*" mode="m">T6</xsl:template>
+</xsl:stylesheet>
+"""
+
+
+def check_probes(env, ctx):
+    """fixed stylesheets for what the generator's vocabulary does not reach: the lexical forms of the priority
+    attribute (large, '.5', '5.', blanks; a value that overflows to -infinity; values that are not numbers) and mode
+    QNames whose prefixes are bound differently in each module (modes are compared as expanded names)."""
+    import re as _re
+    d = os.path.join(WORK, "probe")
+    os.makedirs(d, exist_ok=True)
+
+    def runboth(xsl, xml):
+        outs = []
+        for q in (1, 0):
+            r = env.harness("run %d %s %s" % (q, xsl, xml))
+            if r is None or not r.startswith("OK "):
+                outs.append("ERR %r" % (r or "")[:200])
+            else:
+                outs.append(";".join("%s=%s" % m for m in _re.findall(r'<n name="([^"]*)">([^<]*)</n>', r)))
+        return outs
+
+    with open(os.path.join(d, "d.xml"), "w") as h:
+        h.write("<r><a/><b/></r>")
+    big = "1" + "0" * 400
+
+    def prio(p):
+        f = os.path.join(d, "p.xsl")
+        with open(f, "w") as h:
+            h.write(PROBE_XSL.replace("PRIO", p))
+        return runboth(f, os.path.join(d, "d.xml"))
+
+    bad = []
+    for p, want in (("100000", "T1"), (".5", "T1"), ("5.", "T1"), (" 1 ", "T1"), (big, "T1"), ("0.25", "T1"),
+                    ("-100000", "T2"), ("-.5", "T2"), ("-0.75", "T2")):
+        q, r = prio(p)
+        ctx.case(nontrivial_key="probe:prio:" + p[:12], cls="probe")
+        exp = "r=T2;a=%s;b=T2" % want
+        if q != exp or r != exp:
+            ctx.fail("c10.violation: priority=%r: quiet %s reporting %s, section 5.5 %s" % (p[:20], q, r, exp),
+                     "priority attribute %r: quiet %s, reporting %s, expected %s" % (p[:20], q, r, exp),
+                     {"probe": "priority", "value": p})
+    q, r = prio("-" + big)
+    ctx.case(nontrivial_key="probe:prio:-inf", cls="probe")
+    exp = "r=T2;a=T2;b=T2"
+    if q != exp or r != exp:
+        ctx.fail("c10.defect[priority-negative-overflow]: priority=-1e400 written in digits: quiet %s reporting %s, section 5.5 %s" % (q, r, exp),
+                 "a priority that overflows to -infinity is taken for 'no priority attribute'", {"probe": "priority", "value": "-1" + "0" * 400})
+    for p in ("abc", "+1", "1e5", ""):
+        q, r = prio(p)
+        ctx.case(nontrivial_key="probe:prio:nan:" + p, cls="probe")
+        if q != r:
+            ctx.fail("c10.defect[invalid-priority-nan]: priority=%r: quiet %s, reporting %s" % (p, q, r),
+                     "a priority attribute that is not a number is accepted silently and the two findTemplate bodies then choose different rules",
+                     {"probe": "priority", "value": p})
+    for name, txt in (("mm.xsl", MODE_MAIN), ("mn.xsl", MODE_INC), ("mi.xsl", MODE_IMP)):
+        with open(os.path.join(d, name), "w") as h:
+            h.write(txt)
+    q, r = runboth(os.path.join(d, "mm.xsl"), os.path.join(d, "d.xml"))
+    ctx.case(nontrivial_key="probe:modes", cls="probe")
+    exp = "r=T1|T6;a=T2|T6;b=T4|T6"
+    if q != exp or r != exp:
+        ctx.fail("c10.violation: prefixed modes: quiet %s reporting %s expected %s" % (q, r, exp),
+                 "mode QNames must be compared as expanded names, the prefix being resolved in the module that uses it",
+                 {"probe": "modes"})
+
+
 def run(ctx):
     ctx.rule = ("a case is one rule set (modules with xsl:import/xsl:include, modes, explicit/default priorities, unions) "
                 "with one document; for every node and each of three modes the rule instantiated by the real engine "
@@ -523,6 +635,7 @@ def run(ctx):
     r = Rng(ctx.seed)
     try:
         check_targets(env, ctx, r)
+        check_probes(env, ctx)
         ncases = 2500 if not ctx.thorough else 40000
         corpus = load_corpus()
         cases = [("corpus:" + f, c) for f, c in corpus]
@@ -542,10 +655,18 @@ def run(ctx):
             if res["error"]:
                 engine_errors.append({"case": name, "error": res["error"], "desc": describe(case)[:600]})
                 ctx.case(cls=cls + ":error")
+                if "The error code is '12'" in res["error"]:
+                    res["crash"] = True     # the engine hit its memory limit
+                if res.get("crash") and any(t.get("call") for _, t, _ in G.all_templates(case["main"])):
+                    r2 = evaluate(env, G.inline_calls(case), tag="attr")
+                    if not r2["error"]:
+                        ctx.fail("c10.defect[call-template-current-rule]: the engine does not terminate :: " + describe(case)[:300],
+                                 "apply-imports in a called named template re-enters the calling rule for ever", case)
+                        continue
                 if res.get("crash"):
                     ncrash += 1
                     ctx.fail("c10.crash: " + describe(case)[:300],
-                             "the engine crashed, ran out of its 3 GB memory limit or did not answer within 60 s on this rule set: "
+                             "the engine crashed, ran out of its 3 GB memory limit or did not answer within 20 s on this rule set: "
                              + res["error"], case)
                     if ncrash >= 3:
                         log_stop = "stopped after %d engine crashes/hangs (%d of %d cases run)" % (ncrash, len(engine_errors), len(cases))
@@ -615,6 +736,8 @@ def run(ctx):
         ctx.exhaustive = False
     finally:
         env.close()
+        import shutil
+        shutil.rmtree(WORK, ignore_errors=True)
 
 
 def exhaustive_cases():
